@@ -323,7 +323,8 @@ def verify_function(eng, key, c, fdef=None, module=None):
                 # frame-only contract: loops are cut by the trivial invariant, so only the
                 # ownership obligations (which hold in every state or not at all) are meaningful
                 continue
-            sig = (ob.name, ob.goal.sexpr(), tuple(p.sexpr() for p in ob.pc))
+            # (terms are hash-consed: equal ids = equal terms; the obligations keep them alive)
+            sig = (ob.name, ob.goal.get_id(), tuple(p.get_id() for p in ob.pc))
             h = hash(sig)
             if h in seen:
                 continue
